@@ -633,7 +633,7 @@ func main() {
 			emit(g.randomCase(i, 400, []int{4, 8, 16, 32, 64}))
 		}
 	} else {
-		g.exhaustive(3, 0, emit)
+		g.exhaustive(4, 0, emit)
 		g.exhaustive(6, 1200, emit)
 		for i := 0; i < 64; i++ {
 			emit(g.randomCase(i, 60, []int{3, 6, 12, 20}))
